@@ -84,6 +84,23 @@ class VMModel:
         self.model = model
         self.ec = model.cls(VM, "ExecutionContext")
         self.execute = self.ec.own_method("__Execute")
+        if self.execute is not None:
+            # helper methods the pinned interpreter does not have (an extracted `__GetScalarConversion(targetType)`) are read
+            # in place; the pinned ones stay calls because the rules name them
+            from .sem import expand_helpers
+
+            kept = ("v_", "Invoke", "_Invoke", "__MatrixMatrixMultiply", "__CastValue", "__CreateInstance", "__CreatePrimitiveInstance", "__CreateStructureInstance", "__Execute")
+            try:
+                orig = self.execute
+                if not getattr(orig, "_nslsa_expanded", False):
+                    self.execute = expand_helpers(model, self.ec, orig, skip=kept + tuple("_ExecutionContext" + k for k in kept if k.startswith("__")))
+                    self.execute._nslsa_expanded = True
+                    # every rule sees the same tree: the class's method table now holds the expanded interpreter
+                    for k_, v_ in list(self.ec.methods.items()):
+                        if v_ is orig:
+                            self.ec.methods[k_] = self.execute
+            except Exception:
+                self.execute = self.ec.own_method("__Execute")
         self.opcodes: Dict[str, int] = model.enum_members(IR, "OpCode")
         if not self.opcodes:
             raise AnchorMissing(f"{IR}::OpCode has no members")
